@@ -18,6 +18,8 @@ VERSIONS = ["OB", "OB4", "FO3", "SK", "SSE", "FO4", "FO4_132", "FO4_139", "FO76"
 
 def sig_of(ev, clauses):
     c = ev.get("case", {})
+    if not isinstance(c, dict):
+        c = {}
     s = {"check": "C01", "event": ev["e"], "clauses": sorted(clauses)}
     for k in ("file", "type", "ver"):
         if k in c:
@@ -27,7 +29,7 @@ def sig_of(ev, clauses):
 
 def judge(ck, prop, trace, what, only_prefix=None):
     """returns parsed events; violations are grouped per (type/file, clauses)"""
-    lines = [l for l in open(trace) if l.startswith('{"e":"rt"') or l.startswith('{"e":"crash"') or l.startswith('{"e":"file"')]
+    lines = [l for l in open(trace) if l.startswith('{"e":"rt"') or l.startswith('{"e":"crash"') or l.startswith('{"e":"file"') or l.startswith('{"e":"objsave"')]
     kept = trace + ".events"
     open(kept, "w").writelines(lines)
     r, viols, n = vlib.validate_trace("NifWireTrace", kept, tag=prop.lower() + "-" + what, timeout=6000, stack_mb=512, heap="16g")
@@ -46,6 +48,8 @@ def judge(ck, prop, trace, what, only_prefix=None):
                 if not clauses:
                     continue
             c = ev.get("case", {})
+            if not isinstance(c, dict):
+                c = {"case": c}
             key = (c.get("file"), c.get("type"), c.get("ver"), tuple(sorted(clauses)))
             if key in seen:
                 continue
